@@ -292,8 +292,36 @@ def xworker : Handler := fun j => do
                 ("size", jOS r.size), ("tree", jOptNat r.tree),
                 ("keyerror", jBool (xtoTrial id 0 r).isNone)])
 
+/-- op `c08.xprefixes`: the states `xrunLog init (log.take n)` for every prefix of a completion log
+    (`order` = submission numbers in completion order): what `self.best` must be whenever the real
+    object is looked at between two assessed trials.  Returns, per prefix, `best["score"]`, the
+    winner's params id and `trials_since_best`. -/
+def xprefixes : Handler := fun j => do
+  let mts ← optNatOf (fieldD j "mts" Json.null)
+  let settings ← (← arrOf (← field j "settings")).mapM fun p => do
+    match ← arrOf p with
+    | [a, b] => pure ({ method := ← natOf a, params := ← natOf b } : Setting)
+    | _ => throw "setting must be [method, params]"
+  let trials ← (← arrOf (← field j "trials")).mapM xtrialOf
+  let order ← natList (← field j "order")
+  let row := fun (st : XState) =>
+    jObj [("n", jNat st.scores.length), ("best", jXScore st.curBest),
+          ("params", match st.best with | none => Json.null | some b => jOptNat b.params),
+          ("trials_since_best", jNat st.trialsSinceBest)]
+  let mut st := XState.init mts
+  let mut log : XLog := []
+  let mut outs : List Json := [row st]
+  for k in order do
+    match trials.getD k none with
+    | none => throw s!"submission {k} has no result"
+    | some t =>
+      log := log ++ [(settings.getD k default, t)]
+      st := xrunLog (XState.init mts) log
+      outs := outs ++ [row st]
+  pure (jObj [("prefixes", jArr outs)])
+
 def handlers : List (String × Handler) :=
   [("c08.search", search), ("c08.worker", worker), ("c08.xsearch", xsearch),
-   ("c08.xworker", xworker)]
+   ("c08.xworker", xworker), ("c08.xprefixes", xprefixes)]
 
 end Cotengra.Driver.C08
